@@ -341,3 +341,15 @@ def run(rep, programs):
     # a change without a tree id finds its tree with Trees::search: the search has to visit every tree
     from props import c10
     c10.r_global_search(rep, prog)
+    from props import c08
+    c08.r_err_kinds(rep, prog)       # change_at reports a non-matching tree as Memory, which is what the search continues on
+    tc = lib.need_body(prog, "llfree::trees::Trees::change")
+    ttm = T.Terms(tc, prog)
+    ss = lib.find_calls(tc, "llfree::trees::Trees::search")
+    good = False
+    if len(ss) == 1:
+        a = [ttm.operand(x) for x in ss[0][1]["args"]]
+        good = T.const_val(a[2]) == 0 and T.canon(a[3]) in (("call", "llfree::trees::Trees::len", (("p", "self"),)),) or (
+            T.const_val(a[2]) == 0 and a[3][0] == "call" and a[3][1] == "slice::len")
+    rep.check(good, "R-CHANGE-GUARD", "Trees::change|search-domain", "a change without id searches all trees: search(_, 0, self.len(), ..)",
+              "Trees::change does not search the whole tree array (offset/len arguments changed)", tc.span)
